@@ -170,15 +170,25 @@ fn gen_delcreate_case(rng: &mut Rng) -> ConcCase {
         }
     }
     let nt = rng.range(2, 4);
+    let same_struct = rng.chance(1, 2);
     let mut threads = Vec::new();
     for t in 0..nt {
         let mut ops = Vec::new();
-        // the first two threads start with "their" maker's functions: one deletes, one creates
+        // the first two threads start with "their" maker's functions: one deletes, one creates;
+        // or (same_struct) both start with the two functions keyed by the struct that maker 1 is
+        // about to create, so that two function ingredients meet on a brand-new struct
         if t < 2 {
-            ops.push(TOp::Req(node_req(&prog, first_plain + 2 * t)));
+            let n = if same_struct { first_plain + 2 + t } else { first_plain + 2 * t };
+            ops.push(TOp::Req(node_req(&prog, n)));
         }
         for _ in 0..rng.range(1, 5) {
-            ops.push(TOp::Req(node_req(&prog, rng.range(first_plain, prog.nodes.len() - 1))));
+            if rng.chance(1, 3) {
+                // ask for a struct-keyed function directly: a memo lost from the struct's memo
+                // table shows as a second execution in the same revision
+                ops.push(TOp::Req(Req::OnEnt(rng.below(k), 0)));
+            } else {
+                ops.push(TOp::Req(node_req(&prog, rng.range(first_plain, prog.nodes.len() - 1))));
+            }
         }
         threads.push(ops);
     }
